@@ -53,8 +53,10 @@ def schedule(rng, length=None):
                 ops.append('tbl remove 0 %s %d' % (m, g))
             elif k < 0.84:
                 ops.append('tbl find 0 %s %d' % (m, g))
-            elif k < 0.90:
+            elif k < 0.87:
                 ops.append('tbl touch 0 %s %d %d' % (m, g, rng.choice([2, 3])))
+            elif k < 0.90:
+                ops.append('tbl readd 0 %s %d %d %d' % (m, g, rng.choice([0, 1, 2, 65535]), rng.choice([1, 2, 3])))     # the key bytes lie inside the entry just removed
             elif k < 0.95:
                 ops.append(rng.choice(['tbl update 0', 'tbl dump 0']))
             else:
@@ -96,7 +98,7 @@ def schedule(rng, length=None):
                 f = F.reset(m, tos=rng.choice([0, 1]), eth_src=eth, own=rng.choice([F.BCAST, OWN]))
             else:
                 f = rng.choice([F.hello(m, g, m, m), F.query(m, OWN, xid), F.raw(rng.choice([0, 1, 2]), rng.randrange(256), OWN, m, OWN, m, xid)])
-            ops.append('ev 0 %s avail=%d tbl=%s' % (f, len(f) // 2 + rng.choice([0, 0, 6, 700]), rng.choice(['0', '0', '0', '-'])))
+            ops.append('ev 0 %s avail=%d tbl=%s%s' % (f, len(f) // 2 + rng.choice([0, 0, 6, 700]), rng.choice(['0', '0', '0', '-']), rng.choice(['', '', ' off=2'])))
     return ops
 
 
@@ -167,4 +169,55 @@ def moving_clock_cells(kind, nstates, timeouts, inputs):
                             ops.append('fsm step 0 %d' % e2)
                             base += gap + 40
                 out.append(('mclk_s%d_p%d_d%d' % (s, phase, d), ops))
+    return out
+
+
+AUTO_SOAK = ['sess_same', 'sess_p4', 'sess_c5', 'sess_pair', 'map_same', 'tbl_same', 'tbl_cycle', 'heard', 'tick', 'flow', 'classify']
+
+
+def soak(rng, kind, n=None):
+    """ONE kind of call repeated hundreds of times on the automata side (counters wrapping, thresholds, run-length shortcuts), each
+    repetition within the time-outs, followed by a pause past every time-out and ordinary calls that show the consequences"""
+    n = n or rng.choice([300, 300, 520, 700])
+    ops = ['iface 0 mtu=1500 mac=%s' % OWN, 'fsm new 0 map', 'fsm new 1 enum', 'fsm new 2 sess', 'tbl new 0', 'clock %d' % rng.choice([0, 5000, 100000])]
+    m, g = MACS[0], 1
+    ops += ['fsm step 0 0', 'map resetinact 0', 'tbl add 0 %s %d 1' % (m, g), 'band init 1', 'band choose 1', 'fsm step 1 3', 'fsm step 2 %d' % rng.choice([2, 3])]
+    e = rng.choice([4, 5, 2, 3, 6, 7])
+    if kind in ('sess_p4', 'sess_c5'):
+        # the two self-loops of the session automaton: Pending + non-acknowledging Discover with a changed transaction, Complete +
+        # acknowledging one with a changed transaction — what a mapper that keeps re-sending its Discover produces
+        ops[-1] = 'fsm step 2 %d' % (2 if kind == 'sess_p4' else 3)
+        e = 4 if kind == 'sess_p4' else 5
+        kind = 'sess_same'
+    for k in range(n):
+        ops.append('clock %d' % rng.choice([0, 100, 250, 250, 700]))
+        if kind == 'sess_same':
+            ops.append('fsm step 2 %d' % e)
+        elif kind == 'sess_pair':
+            ops.append('fsm step 2 %d' % (3 if k & 1 else 4))
+        elif kind == 'map_same':
+            ops += ['fsm step 0 %d' % rng.choice([6, 6, 6, 11, 3]), 'map resetinact 0']
+        elif kind == 'tbl_same':
+            ops.append('tbl add 0 %s %d %d' % (m, g, (k % 65535) + 1))
+        elif kind == 'tbl_cycle':
+            mm = MACS[k % 3]
+            ops += ['tbl add 0 %s %d %d' % (mm, k % 2, k & 0xffff), 'tbl remove 0 %s %d' % (MACS[(k + 1) % 3], (k + 1) % 2)]
+        elif kind == 'heard':
+            ops.append('band heard 1')
+        elif kind == 'tick':
+            ops.append('tick 0 1 0 wired')
+        elif kind == 'flow':
+            ops += ['tbl add 0 %s %d %d' % (m, g, (k % 65535) + 1), 'tbl touch 0 %s %d 2' % (m, g), 'tbl update 0', 'fsm step 0 0', 'map resetinact 0', 'band begun 1', 'fsm step 1 3', 'tick 0 1 0 wired']
+        else:
+            f = F.discover(m, g, (k % 65535) + 1, [F.rand_mac(rng) for _ in range(k % 4)] + ([OWN] if k % 5 == 0 else []))
+            ops.append('ev 0 %s avail=%d tbl=0' % (f, len(f) // 2))
+    ops += ['clock 2500', 'fsm step 2 3', 'fsm step 2 5', 'fsm step 0 2', 'tick 0 1 0 wired', 'clock 61000', 'tick 0 1 0 wired', 'fsm step 2 2', 'fsm step 0 0', 'tbl dump 0', 'tbl add 0 %s 7 1' % MACS[1],
+            'tbl find 0 %s 7' % MACS[1], 'band update 1', 'band choose 1']
+    return ops
+
+
+def soak_cases(rng, tier):
+    out = [('asoak_%s' % kd, soak(rng, kd)) for kd in AUTO_SOAK]
+    if tier == 'thorough':
+        out += [('asoak70k_%s' % kd, soak(rng, kd, 70000)) for kd in ('sess_same', 'tbl_same', 'heard')]
     return out
